@@ -302,9 +302,12 @@ def step (s : St) : Op → St × Res
                   nextObj := if auto && kw.all (fun nv => nv.1 != "name") then s.nextObj + 1 else s.nextObj }, .ok)
   | .instSet i n v => instSetCore s i n v
   | .instSetSame i n =>
-    match held s i n with
-    | none => (s, .skip)
-    | some v => instSetCore s i n v
+    match s.insts[i]? with
+    | none => (s, .stuck)
+    | some _ =>
+      match held s i n with
+      | none => (s, .skip)
+      | some v => instSetCore s i n v
   | .update i kvs =>
     match s.insts[i]? with
     | none => (s, .stuck)
